@@ -84,7 +84,7 @@ def term_eq(a, b):
     return type(a) is type(b) and a == b or (a is b)
 
 
-def bytes_term(items, val, first_read=1):
+def bytes_term(items, val, first_read=1, probs=None):
     """expected loader term for a byte-string payload layout (after the tag). returns (term, payload expr, next read#)"""
     kinds = [it[0] for it in items]
     if kinds == []:
@@ -94,6 +94,11 @@ def bytes_term(items, val, first_read=1):
     if kinds == ["pack", "raw"]:
         fmt = items[0][1]
         size = struct.calcsize(fmt)
+        args = items[0][2]
+        if probs is not None and not (len(args) == 1 and A.src(args[0]) == "len(%s)" % A.src(items[1][1])):
+            probs.append("the length field packs `%s`, which is not the length of the bytes written after it (`%s`): for text whose "
+                         "encoded form is longer than its character count the reader stops short / misreads what follows"
+                         % (", ".join(A.src(a) for a in args), A.src(items[1][1])[:60]))
         u = ("item", ("unpack", fmt, ("read", first_read, ("const", size))), 0, 1)
         return ("read", first_read + 1, u), items[1][1], first_read + 2
     return None, None, first_read
@@ -110,7 +115,7 @@ def expected_term(model, t, path, val):
     obj = A.params(model.dumpers[t][0].node)[0]
     if t is str:
         # TAG + <bytes layout of obj.encode(codec)> ; the reader decodes one nested value
-        tb, payload, _ = bytes_term(rest[1:] if rest and rest[0][0] == "bytes" else rest, val)
+        tb, payload, _ = bytes_term(rest[1:] if rest and rest[0][0] == "bytes" else rest, val, probs=probs)
         if not rest or rest[0][0] != "bytes" or tb is None:
             return None, ["text is not written as TAG + a nested byte string"]
         enc = None
@@ -147,7 +152,7 @@ def expected_term(model, t, path, val):
             if t in consts:
                 return ("const", consts[t]), probs
             return None, ["a bare tag is emitted for a type with more than one value"]
-        tb, payload, _ = bytes_term(rest, val)
+        tb, payload, _ = bytes_term(rest, val, probs=probs)
         if kinds == ["pack", "raw"]:
             la = rest[0][2]
             if len(la) != 1 or A.src(la[0]) != "len(%s)" % A.src(payload):
@@ -412,6 +417,24 @@ def run(ctx, rep, model=None):
            "shortcut makes True, 1 and 1.0 (or 0.0 and -0.0) share an encoding" % (
                A.src(getattr(stray[0], "_parent", stray[0]))[:60] if stray else A.src(emits[0])[:60]),
            ctx.loc(stray[0] if stray else emits[0]) if (stray or emits) else f_dump.loc, kind="site")
+    # dump() builds its output in a list created by this very call: a buffer that outlives the call (module level, thread local,
+    # attribute) is shared with a dump() re-entered on the same thread (a proxy finalizer sending its release during a GC pass)
+    f_api = ctx.func(BR + ".dump")
+    g_api = ctx.cfg(f_api)
+    rd_api = Q.ReachingDefs(g_api)
+    okbuf = False
+    whyb = "dump() does not hand a list to _dump"
+    for n in g_api.live:
+        if n.ast is None or n.kind not in ("stmt", "test"):
+            continue
+        for c in A.find_calls(n.ast, "_dump"):
+            if len(c.args) == 2:
+                buf = K.resolve_expr(rd_api, n, c.args[1])
+                okbuf = isinstance(buf, ast.List) and not buf.elts or (isinstance(buf, ast.Call) and A.call_name(buf) == "list" and not buf.args)
+                whyb = "the buffer handed to _dump is `%s`" % A.src(buf)[:60]
+    rep.ob("R04.2", "brine.dump: the output buffer is created by the call itself", okbuf,
+           "stream = [] per call" if okbuf else whyb + ": a nested dump on the same thread (finalizer sending a release notice while a "
+           "message is being encoded) clears and refills the outer message - the value never reaches the peer", f_api.loc, kind="site")
     # no equality-keyed memoisation anywhere in the codec
     memo = []
     for q, f in sorted(ctx.repo.funcs.items()):
